@@ -25,7 +25,7 @@ import (
 // loses none.
 
 const (
-	c12PipeEveryQuick    = 29 // 3000 of 87000 quick cases run the full pipeline
+	c12PipeEveryQuick    = 29 // 2000 of 58000 quick cases run the full pipeline
 	c12PipeEveryThorough = 41
 )
 
@@ -63,17 +63,17 @@ func init() {
 			if tier == "thorough" {
 				return 2460000
 			}
-			return 87000
+			return 58000
 		},
 		Run:              c12Run,
 		CrashIsViolation: true,
 		CaseTimeoutS:     180,
 		MinObs: func(tier string) map[string]int64 {
 			return map[string]int64{
-				"items_evaluated": 250000, "items_accepted_by_reference": 100000, "items_rejected_by_reference": 100000, "items_where_and_differs_from_or": 80000,
-				"values_at_argument": 100000, "values_just_above_argument": 20000, "values_just_below_argument": 20000, "values_one_byte_off_argument": 15000, "values_containing_fragment_argument": 8000,
-				"reference_lookups": 35000, "reference_rows_inserted_by_sql": 250, "direct_inserts": 70000,
-				"pipeline_cases_at_head": 2500, "pipeline_items": 15000, "cases_with_address_restriction": 300, "logs_outside_address_restriction": 1500,
+				"items_evaluated": 180000, "items_accepted_by_reference": 80000, "items_rejected_by_reference": 80000, "items_where_and_differs_from_or": 60000,
+				"values_at_argument": 80000, "values_just_above_argument": 15000, "values_just_below_argument": 15000, "values_one_byte_off_argument": 12000, "values_containing_fragment_argument": 6000,
+				"reference_lookups": 25000, "reference_rows_inserted_by_sql": 200, "direct_inserts": 45000,
+				"pipeline_cases_at_head": 1400, "pipeline_items": 10000, "cases_with_address_restriction": 150, "logs_outside_address_restriction": 800,
 			}
 		},
 	})
@@ -942,7 +942,7 @@ func (sc *c12Scenario) judge(c *vk.Case, path string, items []*c12Item, gotIDs m
 		for i, s := range sc.sites {
 			per[s.describe()] = fmt.Sprintf("value=%s reference=%v counted=%v", model.CanonValue(it.row[s.column]), it.results[i], it.counted[i])
 		}
-		det := merge(detail, map[string]any{"item": it.id, "outcome": dir, "per_filter": per, "aggregation": sc.agg, "candidate_row": fmt.Sprint(it.row)})
+		det := merge(detail, map[string]any{"item": it.id, "outcome": dir, "per_filter": per, "aggregation": sc.agg, "candidate_row": c12RowString(it.row)})
 		if key, isLost := lost[it]; isLost {
 			c.Violate(key, det, "%s: item %s is accepted by the declared filters but the restriction sent with eth_getLogs excluded its log", path, it.id)
 			continue
@@ -966,6 +966,15 @@ func (sc *c12Scenario) judge(c *vk.Case, path string, items []*c12Item, gotIDs m
 				"%s: item %s %s by %d filters under %q (not attributable to one filter or to the aggregation from this case alone)", path, it.id, dir, len(sc.sites), sc.agg)
 		}
 	}
+}
+
+func c12RowString(row model.Row) string {
+	var cols []string
+	for k := range row {
+		cols = append(cols, k)
+	}
+	sort.Strings(cols)
+	return model.CanonRow(row, cols)
 }
 
 func aggName(a string) string {
@@ -1054,6 +1063,8 @@ func (rc *refConn) QueryRow(_ context.Context, q string, args ...any) pgx.Row {
 
 func c12Run(c *vk.Case) {
 	switch {
+	case c.Index == 0:
+		c12Catalogue(c)
 	case c.Index == 1:
 		c12Probes(c)
 	case c12IsPipe(c):
@@ -1202,6 +1213,70 @@ func c12Pipeline(c *vk.Case) {
 		}
 	}
 	sc := c12Build(r, o)
+	c12PipeRun(c, r, sc, subName, c.Index < every*5)
+}
+
+// c12Manual builds a scenario from a hand-written declaration: Transfer with
+// all inputs selected, log_addr declared, the given filters.
+func c12Manual(r *vk.RNG, laOp string, laArgs func(addrs [][]byte) []string, toFilter func(tos [][]byte) *model.Filter, agg string) *c12Scenario {
+	sc := &c12Scenario{o: c12Opts{mode: model.ModeLog, pushdown: true, pipeline: true, nblocks: 3}, chainID: 1, refSet: map[string]bool{}, agg: agg}
+	for i := 0; i < 4; i++ {
+		sc.addrs = append(sc.addrs, r.Bytes(20))
+	}
+	tos := [][]byte{r.Bytes(20), r.Bytes(20)}
+	d := &model.Decl{Name: namePoolIG[0], Enabled: true, Table: namePoolTbl[0], ColTypes: map[string]string{}, InFilter: map[string]model.Filter{}, EventName: "Transfer"}
+	d.Sources = []model.SrcRef{{Name: namePoolSrc[0], Start: 1}}
+	d.Inputs = []refmodel.Field{
+		{Name: "from", Type: refmodel.Address(), Indexed: true, Column: "f"},
+		{Name: "to", Type: refmodel.Address(), Indexed: true, Column: "t"},
+		{Name: "value", Type: refmodel.Uint(256), Column: "v"},
+	}
+	d.Block = []model.BlockField{{Name: "log_addr", Column: "log_addr", ColType: "bytea"}}
+	sc.bare = d
+	mk := func(r *vk.RNG) simnode.Log {
+		return model.MakeLog(d.EventName, d.Inputs, []any{r.Bytes(20), vk.Pick(r, tos), big.NewInt(int64(r.Intn(1000)))}, vk.Pick(r, sc.addrs))
+	}
+	sc.chain = simnode.NewChain(nextChainID(), gen.Content(gen.ChainOpts{Seed: r.U64(), MinTxs: 1, MaxTxs: 2, MaxLogs: 3, Makers: []gen.LogMaker{mk}}))
+	sc.chain.Grow(sc.o.nblocks)
+	fd := *d
+	fd.InFilter = map[string]model.Filter{}
+	fd.Block = append([]model.BlockField(nil), d.Block...)
+	la := &c12Site{where: "block", idx: 0, name: "log_addr", column: "log_addr", kind: "bytes", fixedLen: 20, op: laOp, filter: model.Filter{Op: laOp, Arg: laArgs(sc.addrs)}}
+	fd.Block[0].Filter = la.filter
+	sc.sites = append(sc.sites, la)
+	if toFilter != nil {
+		f := toFilter(tos)
+		fd.InFilter["to"] = *f
+		sc.sites = append(sc.sites, &c12Site{where: "input", idx: 1, name: "to", column: "t", kind: "bytes", fixedLen: 20, indexed: true, op: f.Op, filter: *f})
+	}
+	fd.FilterAgg = agg
+	sc.d = &fd
+	return sc
+}
+
+// c12Catalogue: minimal pushdown declarations, run first so that the witness
+// kept for a key is as small as the defect allows.
+func c12Catalogue(c *vk.Case) {
+	r := c.R
+	hx := func(b []byte) string { return "0x" + hex.EncodeToString(b) }
+	one := func(a [][]byte) []string { return []string{hx(a[0])} }
+	toEq := func(tos [][]byte) *model.Filter { return &model.Filter{Op: "eq", Arg: []string{hx(tos[0])}} }
+	for _, sc := range []*c12Scenario{
+		c12Manual(r, "contains", one, nil, ""),                                                               // control: the restriction equals the filter
+		c12Manual(r, "contains", one, toEq, "and"),                                                           // control: and-combined
+		c12Manual(r, "!contains", one, nil, ""),                                                              // everything but one contract
+		c12Manual(r, "ne", one, nil, ""),                                                                     //
+		c12Manual(r, "contains", one, toEq, "or"),                                                            // one contract, or a recipient anywhere
+		c12Manual(r, "contains", func(a [][]byte) []string { return []string{hx(a[0][:4])} }, nil, ""),       // address prefix
+		c12Manual(r, "contains", func(a [][]byte) []string { return []string{hx(r.Bytes(20))} }, toEq, "or"), // absent contract, or a recipient
+	} {
+		c12PipeRun(c, r, sc, "catalogue", false)
+	}
+}
+
+func c12PipeRun(c *vk.Case, r *vk.RNG, sc *c12Scenario, subName string, sample bool) {
+	o := sc.o
+	baseViol := len(c.Res.Violations)
 	decls := []*model.Decl{sc.d}
 	if sc.ref != nil {
 		decls = append(decls, sc.ref)
@@ -1238,7 +1313,7 @@ func c12Pipeline(c *vk.Case) {
 			return
 		}
 		if ok, lastErr := runToHead(c, env, rt, sc.chain, "pipeline:referenced:", detail, nil); !ok {
-			if len(c.Res.Violations) == 0 {
+			if len(c.Res.Violations) == baseViol {
 				c.Inconclusive("referenced integration did not reach the head: %s", lastErr)
 			}
 			return
@@ -1298,7 +1373,7 @@ func c12Pipeline(c *vk.Case) {
 	}
 	pm := newPairMon(c, env, namePoolSrc[0], sc.d.Name)
 	reached, lastErr := runToHead(c, env, task, sc.chain, "pipeline:", detail, onStep)
-	if len(c.Res.Violations) > 0 {
+	if len(c.Res.Violations) > baseViol {
 		return
 	}
 	t, rows, cursors := pm.pairRows()
@@ -1416,7 +1491,7 @@ func c12Pipeline(c *vk.Case) {
 		sc.sigs(c, "pipeline-"+subName)
 		c.Seen("plans", plan)
 	}
-	if c.Index < every*5 {
+	if sample {
 		c.Sample(map[string]any{"path": "pipeline", "sub_case": subName, "declaration": sc.describe(), "plan": plan, "items": len(items), "emitted": len(rows), "address_restriction": pushedHex})
 	}
 }
